@@ -110,13 +110,16 @@ let c08_chk_chunks t =
           if i >= 0 && i < Array.length arr then arr.(i)
           else { c_seq = z_of_small (-1); c_size = Z0; c_id = z_of_small i }) ids in
       (chs, (a, b))) in
-  "wf=" ^ sb (wf_input cs start last) ^ " ok=" ^ sb (check_chunks cs start last out)
+  let lims = if eot t then None else (let m = ti t in Some (tlist t m tz)) in
+  "wf=" ^ sb (wf_input cs start last) ^ " ok=" ^ sb (check_chunks cs start last out &&
+                                                    (match lims with Some l -> sizes_ok_b l out | None -> true))
 
 (* chk_range <s> <e> <c> {<a> <b>}*c *)
 let c08_chk_range t =
   let s = tz t in let e = tz t in let c = ti t in
   let bs = tlist t c (fun t -> let a = tz t in let b = tz t in (a, b)) in
-  "ok=" ^ sb (check_chunk_range s e bs)
+  let k = if eot t then None else Some (tz t) in
+  "ok=" ^ sb (check_chunk_range s e bs && (match k with Some k -> rtiles_b s e k bs | None -> true))
 
 (* ---------- C02 ---------- *)
 (* case: book <U> <nops> { I <k> {<s> <e>}*k | P <v> <s> <e> <last> | R } *)
@@ -699,6 +702,46 @@ let c15_schema t =
   done;
   String.concat " # " (List.rev !outs)
 
+
+(* ---------- C17: API authorization ---------- *)
+let c17_token = "s3cr3t-Tok3n"
+let zs_of_string s = List.init (String.length s) (fun i -> z_of_small (Char.code s.[i]))
+let string_of_zs l = String.concat "" (List.map (fun z -> String.make 1 (Char.chr (int_of_z z))) l)
+let c17_route = function
+  | 0 -> (MPost, "/v1/transactions") | 1 -> (MPost, "/v1/queries") | 2 -> (MPost, "/v1/subscriptions")
+  | 3 -> (MPost, "/v1/updates/tests") | 4 -> (MGet, "/v1/subscriptions/00000000-0000-0000-0000-000000000000")
+  | 5 -> (MPost, "/v1/migrations") | 6 -> (MPost, "/v1/table_stats") | 7 -> (MGet, "/v1/nonexistent")
+  | 8 -> (MGet, "/v1/transactions") | 9 -> (MPost, "/") | 10 -> (MDelete, "/v1/migrations")
+  | _ -> failwith "bad route"
+(* the Authorization header as the typed extractor of the `headers` crate delivers it
+   (scheme compared case-insensitively, optional whitespace around the token trimmed, first header wins) *)
+let c17_hdr shape =
+  let t = c17_token in
+  match shape with
+  | 0 | 12 -> HNone
+  | 1 | 5 | 6 | 10 -> HBearer (zs_of_string t)
+  | 2 -> HBearer (zs_of_string (t ^ "x"))
+  | 3 -> HBearer (zs_of_string (String.sub t 0 (String.length t - 1)))
+  | 4 | 7 | 8 -> HMalformed
+  | 9 | 11 -> HBearer (zs_of_string "wrongtoken")
+  | 13 -> HBearer (zs_of_string (String.uppercase_ascii t))
+  | _ -> failwith "bad header shape"
+(* axum path patterns: a `{name}` segment matches any one segment *)
+let pattern_matches pat path =
+  let a = String.split_on_char '/' pat and b = String.split_on_char '/' path in
+  List.length a = List.length b &&
+  List.for_all2 (fun x y -> (String.length x > 1 && x.[0] = '{' && y <> "") || x = y) a b
+let c17_authzm t =
+  let cfg = if ti t = 1 then Some (zs_of_string c17_token) else None in
+  let n = ti t in
+  let reqs = tlist t n (fun t -> let r = ti t in let h = ti t in (r, h)) in
+  let patterns = List.filter_map (function RRoute (p, _) -> Some (string_of_zs p) | _ -> None) api_router in
+  join " " (fun (r, h) ->
+      let (m, path) = c17_route r in
+      let pat = (match List.find_opt (fun p -> pattern_matches p path) patterns with Some p -> p | None -> path) in
+      match api_serve authz_malformed_is_absent api_router cfg (zs_of_string pat) m (c17_hdr h) with
+      | O401 -> "401" | O400 -> "400" | OHandler _ -> "handler" | OFallback -> "fallback") reqs
+
 (* ---------- dispatch ---------- *)
 let handlers : (string * (toks -> string)) list ref = ref [
   "chunks", c08_chunks;
@@ -713,6 +756,7 @@ let handlers : (string * (toks -> string)) list ref = ref [
   "chk_members", c18_chk;
   "crdtm", c01_crdtm;
   "ivm", c11_ivm;
+  "authz", c17_authzm;
   "schema", c15_schema;
   "updm", c14_updm;
   "chk_upd", c14_chk;
